@@ -9,7 +9,7 @@ COMMON_TB = [
 ]
 
 PROPS_HIST_RULE = ("histories over the full C01 alphabet generated while running (edit/revert source, edit rules incl. invalid files, build, goal build, clean, goal clean, "
- "tamper, delete target, delete cache entry, delete ruler directory or parts, chmod), 260 quick / 4000 thorough, graphs of 1..6 (9) rules with multi-target rules, "
+ "tamper, delete target, delete cache entry, delete ruler directory or parts, chmod, and `mv` = an older copy stashed and later moved back into a target path with its old modification time), 260 quick / 4000 thorough, graphs of 1..6 (9) rules with multi-target rules, "
  "transitive edges, commands in a mini-language (constant, copy, concatenation with tags from a small pool so equal contents are common, chmod), a quarter with failing rules "
  "and missing leaves; corpus cases first. After every op the implementation's verdict, executed script lines, status lines, workspace, cache listing, decoded "
  "history files and file-state table are compared with the model (only the columns this property reads). Distinct by hash of the history; non-trivial = contains a successful build.")
@@ -291,3 +291,14 @@ PROPS = {
         ],
     },
 }
+
+# round 3 additions to the generation rules
+_R3 = {
+    "C08": " Round 3: mixed and hist contain `mv` patterns (a target stashed as t.bak, its source edited, build, the old copy moved back with its old modification time, build).",
+    "C09": " Round 3: suite dropped — build, clean, the rules file rewritten WITHOUT the rule that produced a path another rule still reads (the path becomes a plain source that the table and the cache still remember), build: ruler must report the missing source and create nothing.",
+    "C10": " Round 3: before the clean, an mv dance: every in-scope target moved aside, the leaves changed, build, the leaves restored, the old copies moved back with their old modification times (the table now remembers NEWER states of other contents for those paths).",
+    "C17": " Round 3: a third of the scenarios have a neighbour rule that fails in the same build, so the contradicted rule's history must have been written by a build that failed as a whole.",
+    "C02": " Round 3: the monitor separates 'an output ruler itself lost' (it was in the cache when the build started, nobody else's target took it, yet the command ran) from the known finding; mixed has mv patterns.",
+}
+for _k, _v in _R3.items():
+    PROPS[_k]["rule"] += _v
